@@ -118,6 +118,24 @@ def simplify(case):
         yield {"costs": costs, "order2": list(range(n))}
 
 
+def decode_bytes(fdp):
+    """atheris decoder: every individual is m+1 bytes (grid coordinates 0..4 and a marker)"""
+    head = fdp.ConsumeIntInRange(0, 255)
+    m = 1 + head % 4
+    width = [2, 3, 5][(head >> 2) % 3]
+    costs = []
+    while fdp.remaining_bytes() >= m + 1 and len(costs) < 48:
+        v = [float(fdp.ConsumeIntInRange(0, 255) % width) for _ in range(m)]
+        mk = [False, False, False, True, True, 0.5][fdp.ConsumeIntInRange(0, 255) % 6]
+        costs.append(v + [mk])
+    if not costs:
+        return None
+    n = len(costs)
+    return {"costs": costs, "order2": list(range(n - 1, -1, -1))}
+
+
+FUZZ_DECODERS = {"rank": decode_bytes}
+
 CLAUSES = [
     Clause("rank", population(24), check_sort, quick=3000, thorough=12000, quick_shards=4, simplify=simplify),
     Clause("rank-large", population(60), check_sort, quick=300, thorough=3000, quick_shards=2, simplify=simplify),
